@@ -20,12 +20,12 @@ import (
 )
 
 type mutant struct {
-	ID     string     `json:"id"`
-	Edits  []mutEdit  `json:"edits"`
-	Patch  string     `json:"patch,omitempty"` // path relative to /verif of a git patch (alternative to edits)
-	Expect string     `json:"expect"`          // substring of the violation line that must be reported
-	Note   string     `json:"note,omitempty"`
-	Source string     `json:"source,omitempty"` // "hand" | "seeded/<dir>"
+	ID     string    `json:"id"`
+	Edits  []mutEdit `json:"edits"`
+	Patch  string    `json:"patch,omitempty"` // path relative to /verif of a git patch (alternative to edits)
+	Expect string    `json:"expect"`          // substring of the violation line that must be reported
+	Note   string    `json:"note,omitempty"`
+	Source string    `json:"source,omitempty"` // "hand" | "seeded/<dir>"
 	res    mutantResult
 }
 
